@@ -240,11 +240,16 @@ def program(shape, op, n):
 MEM_LIMIT = 6 * 1024 * 1024 * 1024
 
 
-def _limits():
-    resource.setrlimit(resource.RLIMIT_STACK, (MAIN_STACK, MAIN_STACK))
-    resource.setrlimit(resource.RLIMIT_CORE, (0, 0))
-    # a traversal that eats memory fails in its own process instead of inviting the kernel's OOM killer
-    resource.setrlimit(resource.RLIMIT_AS, (MEM_LIMIT, MEM_LIMIT))
+def _limits(cpu=None):
+    def f():
+        resource.setrlimit(resource.RLIMIT_STACK, (MAIN_STACK, MAIN_STACK))
+        resource.setrlimit(resource.RLIMIT_CORE, (0, 0))
+        # a traversal that eats memory fails in its own process instead of inviting the kernel's OOM killer
+        resource.setrlimit(resource.RLIMIT_AS, (MEM_LIMIT, MEM_LIMIT))
+        if cpu:
+            # the time bound is CPU time (SIGXCPU): the verdict does not depend on how loaded the machine is
+            resource.setrlimit(resource.RLIMIT_CPU, (cpu, cpu + 5))
+    return f
 
 
 def _bin():
@@ -257,13 +262,17 @@ def _mode(stack):
 
 
 def run_case(src, stack, bound):
-    """One child process.  Returns dict(status, lines, rc, stderr, secs). status: end | died | timeout."""
+    """One child process; `bound` = seconds of CPU time (wall-clock cap 8 x bound + 30 s for a blocked process).
+    Returns dict(status, lines, rc, stderr, secs). status: end | died | timeout."""
     t = time.time()
     try:
         p = subprocess.run([_bin(), _mode(stack)], input=src.encode(), stdout=subprocess.PIPE, stderr=subprocess.PIPE,
-                           timeout=bound, preexec_fn=_limits)
+                           timeout=bound * 8 + 30, preexec_fn=_limits(bound))
         out, err, rc = p.stdout.decode(errors="replace"), p.stderr.decode(errors="replace"), p.returncode
-        status = "end" if out.rstrip().endswith("=== end") and rc == 0 else "died"
+        if rc in (-24, -9) and "overflow" not in err and not out.rstrip().endswith("=== end"):
+            status = "timeout"       # SIGXCPU (or the hard limit's SIGKILL)
+        else:
+            status = "end" if out.rstrip().endswith("=== end") and rc == 0 else "died"
     except subprocess.TimeoutExpired as ex:
         out = (ex.stdout or b"").decode(errors="replace")
         err, rc, status = "timeout", 124, "timeout"
@@ -273,25 +282,31 @@ def run_case(src, stack, bound):
 PSEP = "\n;;;===\n"
 
 
-def run_batch(srcs, stack, secs):
-    """Many small programs in few processes (harness `batch` mode: fresh engine per program, watchdog of `secs` per
-    program).  A program that kills the process or trips the watchdog costs one restart.  Returns a list of result dicts
-    like run_case's."""
+def run_batch(srcs, stack, secs, groups=None):
+    """Many small programs in few processes (harness `batch` mode, CPU-time watchdog of `secs` per program).  Consecutive
+    programs of the same group (= same shape) share an engine (`;;;reuse`): the next operation is asked of a freshly built
+    value on the engine the previous one left behind; a new group gets a fresh engine.  A program that kills the process or
+    trips the watchdog costs one restart (the rest continues on a fresh engine).  Returns a list of result dicts like
+    run_case's."""
     n = len(srcs)
     results = [None] * n
+    marked = []
+    for i, src in enumerate(srcs):
+        same = groups is not None and i > 0 and groups[i] == groups[i - 1]
+        marked.append((";;;reuse\n" if same else "") + src)
     todo = list(range(n))
     guard = 0
     while todo and guard < n + 5:
         guard += 1
-        text = PSEP.join(srcs[i] for i in todo)
+        text = PSEP.join(marked[i] for i in todo)
         t = time.time()
         try:
             p = subprocess.run([_bin(), "batch", _mode(stack), str(secs)], input=text.encode(), stdout=subprocess.PIPE,
-                               stderr=subprocess.PIPE, timeout=secs * 3 + 20 + 2 * len(todo), preexec_fn=_limits)
+                               stderr=subprocess.PIPE, timeout=secs * 25 + 30 + 4 * len(todo), preexec_fn=_limits())
             out, err, rc = p.stdout.decode(errors="replace"), p.stderr.decode(errors="replace"), p.returncode
         except subprocess.TimeoutExpired as ex:
             out, err, rc = (ex.stdout or b"").decode(errors="replace"), "timeout", 124
-        cur, buf, done_upto = None, [], -1
+        cur, buf, done_upto, tearing = None, [], -1, None
         for line in out.splitlines():
             m = re.match(r"=== begin (\d+)$", line)
             if m:
@@ -306,8 +321,16 @@ def run_batch(srcs, stack, secs):
             m = re.match(r"=== timeout (\d+)$", line)
             if m:
                 k = int(m.group(1))
-                results[todo[k]] = {"status": "timeout", "lines": buf, "rc": 124, "stderr": "watchdog", "secs": secs}
-                done_upto, cur = k, None
+                keep = results[todo[k]]["lines"] + ["=== pieces done"] if tearing is not None and results[todo[k]] else buf
+                results[todo[k]] = {"status": "timeout", "lines": keep, "rc": 124, "stderr": "watchdog", "secs": secs}
+                done_upto, cur, tearing = max(done_upto, k), None, None
+                continue
+            m = re.match(r"=== teardown (\d+)$", line)
+            if m:
+                tearing = int(m.group(1))
+                continue
+            if line == "=== teardown done":
+                tearing = None
                 continue
             if cur is not None:
                 buf.append(line)
@@ -316,6 +339,12 @@ def run_batch(srcs, stack, secs):
             results[todo[cur]] = {"status": "timeout" if rc == 124 else "died", "lines": buf, "rc": rc, "stderr": err[-400:],
                                   "secs": time.time() - t}
             done_upto = cur
+        elif tearing is not None and results[todo[tearing]] is not None:
+            # died while the engine of the finished programs was torn down: charged to the last of them
+            r = results[todo[tearing]]
+            results[todo[tearing]] = {"status": "died", "lines": r["lines"] + ["=== pieces done"], "rc": rc, "stderr": err[-400:],
+                                      "secs": time.time() - t}
+            done_upto = max(done_upto, tearing)
         if done_upto < 0:
             # nothing ran at all: give up on the first one so that the loop makes progress
             results[todo[0]] = {"status": "died", "lines": [], "rc": rc, "stderr": err[-400:], "secs": time.time() - t}
@@ -410,19 +439,6 @@ CLASS_OF = {
     "serialize": "serialize_native_recursion",
     "labels": "display_cycle_label_lookup",
 }
-# findings proposed by this check: treated as listed while their replay file exists (until the coordinator lists them)
-PROPOSED = {
-    "hash_native_recursion": ("K18a", "findings/C18-K18a.scm"),
-    "display_reenters_display": ("K18b", "findings/C18-K18b.scm"),
-    "equal_unchecked_box_pairs": ("K18c", "findings/C18-K18c.scm"),
-    "equal_key_reentry": ("K18d", "findings/C18-K18d.scm"),
-    "serialize_native_recursion": ("K18e", "findings/C18-K18e.scm"),
-    "drop_native_recursion": ("K18f", "findings/C18-K18f.scm"),
-    "mark_strong_box_cycle": ("K18g", "findings/C18-K18g.scm"),
-    "cycle_collector_strong_box_cycle": ("K18h", "findings/C18-K18h.scm"),
-    "mark_shared_immutable_exponential": ("K18i", "findings/C18-K18i.scm"),
-    "display_cycle_label_lookup": ("K18j", "findings/C18-K18j.scm"),
-}
 PRINT_OPS = ("display-port", "write-port", "print-port", "host-display", "host-debug")
 
 
@@ -508,6 +524,12 @@ CYCLE_OPS = ["create", "equal-copy", "equal-self", "host-eq", "hash-code", "disp
              "send-channel"]
 
 
+QUICK_CYCLE_OPS = ["equal-copy", "hash-code", "display-port", "host-display", "gc-live", "gc-dead"]
+# shapes whose Display re-enters Display (quadratic cycle detection): in the quick tier one printing case per shape at 10^5 is
+# enough to see the class, every further one only burns its whole time bound
+REENTRANT_PRINT = ("box", "sbox", "mstruct", "mixed", "map-value")
+
+
 def plan(ctx, rng):
     """List of cases (shape, op, n, stack, bound, batchable)."""
     cases = []
@@ -516,15 +538,23 @@ def plan(ctx, rng):
     depths = [1000, 100000] if quick else [1000, 100000, 1000000]
     for n in depths:
         small = n <= 1000
-        bound = 15 if quick else (60 if n <= 100000 else 240)
+        bound = 6 if quick else (30 if n <= 100000 else 90)       # CPU seconds
         for shape in chains:
             if shape in KEYED and not small:
                 ops = ["create"]          # building it is already the failing operation; nothing else can be asked
             elif quick and not small:
-                ops = [o for o in OPS_ALL if o not in ("print-port", "host-debug", "host-eq", "hash-set", "host-hash")]
+                ops = [o for o in OPS_ALL if o not in ("print-port", "host-debug", "host-eq", "hash-set", "host-hash", "equal-self")]
+            elif quick:
+                ops = [o for o in OPS_ALL if o not in ("print-port", "host-debug", "host-eq", "hash-set", "equal-self")]
             else:
                 ops = list(OPS_ALL)
             for op in ops:
+                if quick and not small and shape in REENTRANT_PRINT and (
+                        (op in PRINT_OPS and op != "host-display") or op == "serialize"):
+                    continue
+                if n > 100000 and shape in REENTRANT_PRINT and ((op in PRINT_OPS and op not in ("host-display", "display-port"))
+                                                                 or op == "serialize"):
+                    continue      # quadratic: already hours at 10^6; two printing operations show the class
                 size, b = n, bound
                 if shape == "pair-car" and op in ("display-port", "print-port") and n >= 100000:
                     # the prelude's printer is quadratic on car-nested pairs (a named let allocates at every level of a deep
@@ -539,14 +569,15 @@ def plan(ctx, rng):
                 if small:
                     stacks = ["thread"] if quick else ["main", "thread"]
                 elif quick:
-                    stacks = ["main"] + (["thread"] if op in ("create", "drop", "gc-dead", "equal-copy", "hash-code", "host-display") else [])
+                    stacks = ["main"] + (["thread"] if op in ("create", "drop", "hash-code") or (
+                        op == "host-display" and shape not in REENTRANT_PRINT) else [])
                 else:
                     stacks = ["main", "thread"]
                 for st in stacks:
                     cases.append((shape, op, size, st, b, small))
     # shared immutable structure: depth 64 is 2^64 leaves unfolded
     for op in ("create", "equal-copy", "equal-self", "gc-live", "gc-dead", "drop", "send-channel", "hash-code"):
-        cases.append(("dag", op, 64 if quick else 200, "main", 10 if quick else 30, False))
+        cases.append(("dag", op, 64 if quick else 200, "main", 5 if quick else 30, False))
     # wide values
     wides = [("wide-list", 10 ** 6), ("wide-mvec", 10 ** 6), ("wide-ivec", 10 ** 6), ("wide-map", 10 ** 5 if quick else 10 ** 6),
              ("wide-set", 10 ** 5 if quick else 10 ** 6), ("string", 10 ** 7)]
@@ -554,9 +585,9 @@ def plan(ctx, rng):
                 "thread-result", "gc-live", "gc-dead", "drop"]
     for shape, n in wides:
         for op in wide_ops if not quick else ["create", "equal-copy", "hash-code", "host-display", "send-channel", "gc-dead", "drop"]:
-            cases.append((shape, op, n, "main", 60 if quick else 240, False))
+            cases.append((shape, op, n, "main", 30 if quick else 90, False))
             if not quick:
-                cases.append((shape, op, n, "thread", 240, False))
+                cases.append((shape, op, n, "thread", 90, False))
     # cycles
     cells = list(CELLS)
     maxlen = 3 if quick else 6
@@ -575,9 +606,9 @@ def plan(ctx, rng):
         rings.append(([rng.choice(cells) for _ in range(L)], [rng.choice(conns + [""]) for _ in range(L)]))
     for kinds, cs in rings:
         nm = cycle_name(kinds, cs)
-        for op in CYCLE_OPS:
+        for op in (QUICK_CYCLE_OPS if quick else CYCLE_OPS):
             for st in (["thread"] if quick else ["main", "thread"]):
-                cases.append((nm, op, len(kinds), st, 5 if quick else 10, True))
+                cases.append((nm, op, len(kinds), st, 2 if quick else 3, True))
     return cases
 
 
@@ -631,14 +662,6 @@ def run(ctx):
 
     listed = {k["class"]: k for k in ctx.load_known() if "class" in k}
     known = dict((c, (k.get("id", "?"), k.get("replay", ""))) for c, k in listed.items())
-    provisional = []
-    for c, (kid, rp) in PROPOSED.items():
-        if c not in known and os.path.exists(os.path.join(C.VERIF, rp)):
-            known[c] = (kid, rp)
-            provisional.append(kid)
-    if provisional:
-        ctx.notes.append("finding classes not yet in KNOWN_FINDINGS.txt but treated as listed because their replay file exists: "
-                         + ", ".join(sorted(provisional)))
 
     cases = corpus_cases() + plan(ctx, rng)
     seen, uniq = set(), []
@@ -677,9 +700,16 @@ def run(ctx):
             batches.setdefault((c[3], c[4]), []).append(i)
     jobs = []
     for (st, bound), idxs in batches.items():
-        size = max(8, (len(idxs) + 2 * C.NCPU - 1) // (2 * C.NCPU))
-        for k in range(0, len(idxs), size):
-            jobs.append(("batch", st, bound, idxs[k:k + size]))
+        # same shape next to each other (they share an engine); a batch is a run of whole shapes
+        idxs.sort(key=lambda i: (cases[i][0], cases[i][2]))
+        size = max(12, (len(idxs) + 2 * C.NCPU - 1) // (2 * C.NCPU))
+        k = 0
+        while k < len(idxs):
+            e = min(len(idxs), k + size)
+            while e < len(idxs) and cases[idxs[e]][0] == cases[idxs[e - 1]][0]:
+                e += 1
+            jobs.append(("batch", st, bound, idxs[k:e]))
+            k = e
     singles = [i for i, c in enumerate(cases) if not c[5]]
     # long ones first
     singles.sort(key=lambda i: -cases[i][2])
@@ -689,14 +719,16 @@ def run(ctx):
     def work(job):
         kind, st, bound, idxs = job
         if kind == "batch":
-            rs = run_batch([progs[i][0] for i in idxs], st, bound)
+            rs = run_batch([progs[i][0] for i in idxs], st, bound, groups=[cases[i][0] for i in idxs])
             return [(i, r) for i, r in zip(idxs, rs)]
         i = idxs[0]
         return [(i, run_case(progs[i][0], st, bound))]
 
+    t_run = time.time()
     for part in C.pool_map(work, jobs, workers=C.NCPU):
         for i, r in part:
             results[i] = r
+    ctx.log("ran %d cases in %d processes/batches: %.0fs" % (len(cases), len(jobs), time.time() - t_run))
 
     for i, c in enumerate(cases):
         shape, op, n, st, bound, small = c
@@ -723,7 +755,7 @@ def run(ctx):
             # the tie in the other direction: where the model says the code never returns, the code must not return
             mp = pred.get(model_shape(shape) or "", {})
             strict = {"equal-copy": ["eq"], "host-eq": ["eq"], "gc-live": ["mark"], "hash-code": ["hash"],
-                      "display-port": ["collect", "print-depth"], "host-display": ["collect", "print-depth"]}
+                      "display-port": ["collect"], "host-display": ["collect", "print-depth"]}
             for mo in strict.get(op, []):
                 if shape.startswith("cycle:") and mo in mp and mp[mo][0] == "diverges":
                     stats["model_disagreements"].append("%s %s stack=%s: model op %s diverges (%s), the real engine answered" % (
@@ -796,8 +828,9 @@ def run(ctx):
     ctx.coverage = cov
     ctx.assumptions = ["native frame sizes are not modelled: the model says whether the native depth grows with the value, the run says "
                        "whether 8 MiB / 2 MiB are exceeded at 10^3 / 10^5 / 10^6",
-                       "time bounds are wall-clock on a shared machine: a timeout is attributed to a class only when the model predicts "
-                       "divergence, exponential rounds or re-entrant printing for that case"]
+                       "time bounds are CPU time of the child (RLIMIT_CPU / the harness watchdog reading /proc/self/stat), wall-clock only as a "
+                       "generous cap for blocked processes; a timeout is attributed to a class only when the model predicts divergence, "
+                       "exponential rounds or re-entrant printing for that case; an unexplained one is asked again alone with 6x the bound"]
     ctx.log("cases=%d ok=%d error-values=%d failing=%d (known classes %d, violations %d), texts vs S %d" % (
         stats["cases"], stats["ok"], stats["error_value"], stats["fail"], stats["known"], stats["violations"], stats["text_checked"]))
     return ctx.finish("proof")
